@@ -36,6 +36,7 @@ HARNESS = ROOT / "harness"
 SHADOW = ROOT / "shadow"
 REPLAY_DIR = ROOT / "replay"
 KNOWN = ROOT / "known_findings.json"
+OUT = Path(os.environ.get("VERIF_OUT", str(ROOT)))  # where evidence/ and replays/ are written
 WORKERS = int(os.environ.get("VERIF_WORKERS", "16"))
 SCALE = float(os.environ.get("VERIF_TIMEOUT_SCALE", "1.0"))
 
@@ -373,7 +374,7 @@ def check_property(pid: str, tier: str, seed: int) -> int:
         # 3. classification
         finding_ids = {f["id"] for f in findings}
         n_hold = n_incon = n_viol = n_harness = 0
-        rep_dir = ROOT / "replays" / pid
+        rep_dir = OUT / "replays" / pid
         for o in order:
             r = results[o.name]
             reach = bool(r.twin_reached) or r.paths > 0 or r.verdict == "counterexample"
@@ -484,8 +485,8 @@ def write_evidence(pid, tier, seed, prop, order, results, finding_state, lines, 
         "wall_s": round(wall, 1),
         "violations": n_viol,
     }
-    evd = ROOT / "evidence"
-    evd.mkdir(exist_ok=True)
+    evd = OUT / "evidence"
+    evd.mkdir(parents=True, exist_ok=True)
     (evd / f"{pid}.json").write_text(json.dumps(ev, indent=1, default=str))
 
 
